@@ -125,8 +125,21 @@ def check(ctx):
         ctx.ob("R17-a", pump, f"the {nm} handler leaves the loop only by raising", not bad, node=bad[0] if bad else h,
                detail="" if not bad else f"`{norm(bad[0])}` in the {nm} handler ends the pump without a result", by=("no break/return",))
     rets = [n for n in own_walk(fn) if isinstance(n, ast.Return)]
-    okr = len(rets) == 1 and rets[0].value is not None and ast.unparse(rets[0].value) == res and any(rets[0] is x for s_ in tr.orelse for x in ast.walk(s_))
-    ctx.ob("R17-a", pump, "what is returned is the result of the successful SSL call", okr, detail="" if okr else "the pump does not `return result` from the else clause of the try", by=(f"return {res}",))
+    okr = len(rets) == 1 and rets[0].value is not None and ast.unparse(rets[0].value) == res
+    ctx.ob("R17-a", pump, "what is returned is the result of the successful SSL call", okr, detail="" if okr else f"the pump does not `return {res}`", by=(f"return {res}",))
+
+    # ... and it is returned only straight after a call that succeeded: no handler has run since (the `else` clause of the try, or the
+    # code after the try when every retrying handler ends in `continue` and every other one raises)
+    def step_ok(st, e, c):
+        if e == "ok":
+            return "fresh" if not c.is_exc else "stale"
+        if e == "h":
+            return "stale"
+        return st
+
+    ctx.paths("R17-a", pump, [("ok", f"{res} = $F($*A)"), ("h", [lambda frag, node: node.kind == "except"])], step_ok, "stale",
+              lambda kind, st, facts: ("the pump returns although the last SSL call did not succeed (a handler ran since)" if kind == "return" and st != "fresh" else None),
+              instance="the result is returned only after a successful call")
     # EOF on the transport is recorded and the call retried
     wr = H["SSLWantReadError"]
     inner = [t for t in own_walk(wr) if isinstance(t, ast.Try)]
@@ -167,10 +180,15 @@ def check(ctx):
         eof_dnf_f = [["not self.standard_compatible", f"isinstance({exn}, ssl.SSLEOFError)"], ["not self.standard_compatible", f"'UNEXPECTED_EOF_WHILE_READING' in {exn}.strerror"]]
         br = find_all("raise BrokenResourceError from $E", se)
         eo = find_all("raise EndOfStream from None", se) + find_all("raise EndOfStream", se)
-        ctx.ob("R17-b", pump, "the unexpected-EOF branch raises BrokenResourceError and EndOfStream", len(br) == 1 and len(eo) == 1, node=se,
+        ctx.ob("R17-b", pump, "the unexpected-EOF branch raises BrokenResourceError and EndOfStream", len(br) >= 1 and len(eo) == 1, node=se,
                detail="" if br and eo else f"found {len(br)} `raise BrokenResourceError` and {len(eo)} `raise EndOfStream` in the SSLError handler", by=("two raises",))
+        # (a syscall error may be classified in this handler too when the two clauses are merged: `if isinstance(exc, SSLSyscallError): raise ...`)
+        sysc = [[f"isinstance({exn}, ssl.SSLSyscallError)"]]
         for st, _ in br:
-            ctx.require_at("R17-b", pump, st, eof_dnf_t, instance="truncation is a BrokenResourceError exactly when standard_compatible", what="raise BrokenResourceError", broad=True)
+            ctx.require_at("R17-b", pump, st, eof_dnf_t + sysc, instance="truncation is a BrokenResourceError exactly when standard_compatible", what="raise BrokenResourceError", broad=True)
+        n_trunc = sum(1 for st, _ in br if not (ctx.facts_at(pump, st, broad=True) and all((sysc[0][0], True) in fa for fa in ctx.facts_at(pump, st, broad=True))))
+        ctx.ob("R17-b", pump, "a truncated stream is reported as BrokenResourceError when standard_compatible", n_trunc >= 1, node=se,
+               detail="" if n_trunc else "no `raise BrokenResourceError` for the unexpected-EOF case", by=("raise BrokenResourceError from exc",))
         for st, _ in eo:
             ctx.require_at("R17-b", pump, st, eof_dnf_f, instance="truncation is a plain EndOfStream only when not standard_compatible", what="raise EndOfStream", broad=True)
         bare = [n for n in own_walk(se) if isinstance(n, ast.Raise) and n.exc is None]
@@ -181,9 +199,22 @@ def check(ctx):
             ctx.ob("R17-b", pump, "the bare re-raise is reached only for errors that are not SSLEOFError", ok, node=r, detail="" if ok else "an SSLEOFError can reach the bare `raise` (truncation would surface as a raw ssl error / be misreported)",
                    by=("not isinstance(exc, ssl.SSLEOFError)",))
     sy = H.get("SSLSyscallError")
-    if ctx.need("R17-b", pump, "`except ssl.SSLSyscallError`", 1 if sy is not None else 0, 1):
+    if sy is not None:
         ok = bool(find_all("raise BrokenResourceError from $E", sy))
         ctx.ob("R17-b", pump, "an SSL syscall error is reported as BrokenResourceError", ok, node=sy, detail="" if ok else "SSLSyscallError is not mapped to BrokenResourceError", by=("raise BrokenResourceError",))
+    else:
+        # no clause of its own: the SSLError clause must single the syscall error out before anything lets it through
+        exn_ = se.name or "exc"
+        k_sys = f"isinstance({exn_}, ssl.SSLSyscallError)"
+        hits = [st for st, _ in find_all("raise BrokenResourceError from $E", se)
+                if ctx.facts_at(pump, st, broad=True) and all((k_sys, True) in fa for fa in ctx.facts_at(pump, st, broad=True))]
+        ctx.ob("R17-b", pump, "an SSL syscall error is reported as BrokenResourceError", bool(hits), node=se,
+               detail="" if hits else "neither an `except ssl.SSLSyscallError` clause nor an isinstance test in the SSLError clause maps it to BrokenResourceError", by=("isinstance guard",))
+        for r in [n for n in own_walk(se) if isinstance(n, ast.Raise) and (n.exc is None or "BrokenResourceError" not in ast.unparse(n.exc))]:
+            fa = ctx.facts_at(pump, r, broad=True)
+            okr_ = bool(fa) and all((k_sys, False) in x for x in fa)
+            ctx.ob("R17-b", pump, "a syscall error leaves the merged clause only as BrokenResourceError", okr_, node=r,
+                   detail="" if okr_ else f"`{norm(r)}` is reachable for an SSLSyscallError", by=("not isinstance(exc, ssl.SSLSyscallError)",))
     for nm, h in (("SSLSyscallError", sy), ("SSLError", se)):
         if h is None:
             continue
